@@ -20,7 +20,7 @@ RULE = ('designs of strata S1, S1x, S2, S3, S6 (+ Repeat S4) (quick: stratified 
         'an excluded level, a sustained factor or a hidden weight factor (allocation is not a plain grid).')
 ASSUMPTIONS = ['which trials a derived factor applies to is taken from the reference model (documented start/stride rules)']
 BUDGET_S = {'quick': 60, 'thorough': 300}
-STRATA = ['S1', 'S1x', 'S2', 'S3', 'S4', 'S6']
+STRATA = ['S1', 'S1x', 'S2', 'S3', 'S4', 'S6', 'S6a']
 QUICK_CAPS = {'S1': 700, 'S1x': 150, 'S2': 350, 'S3': 400, 'S4': 170, 'S6': 50}
 LIMIT = {'quick': 3000, 'thorough': 50000}
 
